@@ -1,6 +1,7 @@
 use std::{
     collections::BTreeSet,
-    fmt, fs, io,
+    fmt, fs,
+    io::{self, Write},
     path::{Path, PathBuf},
 };
 
@@ -224,6 +225,58 @@ pub fn check_file(
         output,
         config_path: resolved.source_path,
     })
+}
+
+/// Replace the contents of `path` without ever exposing a truncated or partially written file.
+///
+/// The new contents are written to a temporary file in the same directory, flushed to disk and
+/// then renamed over the target. A crash, a full disk or a file-size limit therefore leaves the
+/// target with either its complete old contents or its complete new contents. The permissions of
+/// the original file are kept, and the temporary file is removed when anything fails.
+pub fn write_file_atomically(path: &Path, contents: &[u8]) -> io::Result<()> {
+    // Write through symlinks instead of replacing the link itself.
+    let target = fs::canonicalize(path).unwrap_or_else(|_| path.to_path_buf());
+    let dir = match target.parent() {
+        Some(parent) if !parent.as_os_str().is_empty() => parent.to_path_buf(),
+        _ => PathBuf::from("."),
+    };
+    let file_name = target
+        .file_name()
+        .map(|name| name.to_string_lossy().into_owned())
+        .unwrap_or_else(|| "luafmt".to_string());
+    let permissions = fs::metadata(&target).ok().map(|meta| meta.permissions());
+
+    let mut attempt = 0u32;
+    let (tmp_path, mut tmp_file) = loop {
+        let candidate = dir.join(format!(
+            ".{file_name}.{}.{attempt}.luafmt-tmp",
+            std::process::id()
+        ));
+        match fs::OpenOptions::new()
+            .write(true)
+            .create_new(true)
+            .open(&candidate)
+        {
+            Ok(file) => break (candidate, file),
+            Err(err) if err.kind() == io::ErrorKind::AlreadyExists && attempt < 16 => attempt += 1,
+            Err(err) => return Err(err),
+        }
+    };
+
+    let result = (|| {
+        if let Some(permissions) = permissions {
+            tmp_file.set_permissions(permissions)?;
+        }
+        tmp_file.write_all(contents)?;
+        tmp_file.sync_all()?;
+        drop(tmp_file);
+        fs::rename(&tmp_path, &target)
+    })();
+
+    if result.is_err() {
+        let _ = fs::remove_file(&tmp_path);
+    }
+    result
 }
 
 pub fn default_config_toml() -> Result<String, FormatterError> {
@@ -576,6 +629,59 @@ mod tests {
         let path = std::env::temp_dir().join(format!("{prefix}-{unique}-{}", std::process::id()));
         fs::create_dir_all(&path).unwrap();
         path
+    }
+
+    #[test]
+    fn test_write_file_atomically_replaces_contents_and_cleans_up() {
+        let root = make_temp_dir("luafmt-atomic");
+        let file_path = root.join("a.lua");
+        fs::write(&file_path, "local a=1\n").unwrap();
+
+        write_file_atomically(&file_path, b"local a = 1\n").unwrap();
+
+        assert_eq!(fs::read_to_string(&file_path).unwrap(), "local a = 1\n");
+        let names: Vec<_> = fs::read_dir(&root)
+            .unwrap()
+            .map(|entry| entry.unwrap().file_name())
+            .collect();
+        assert_eq!(names.len(), 1, "temporary file left behind: {names:?}");
+        fs::remove_dir_all(root).unwrap();
+    }
+
+    #[cfg(unix)]
+    #[test]
+    fn test_write_file_atomically_keeps_permissions_and_symlinks() {
+        use std::os::unix::fs::PermissionsExt;
+
+        let root = make_temp_dir("luafmt-atomic-perm");
+        let file_path = root.join("real.lua");
+        let link_path = root.join("link.lua");
+        fs::write(&file_path, "local a=1\n").unwrap();
+        fs::set_permissions(&file_path, fs::Permissions::from_mode(0o640)).unwrap();
+        std::os::unix::fs::symlink(&file_path, &link_path).unwrap();
+
+        write_file_atomically(&link_path, b"local a = 1\n").unwrap();
+
+        assert!(
+            fs::symlink_metadata(&link_path)
+                .unwrap()
+                .file_type()
+                .is_symlink()
+        );
+        assert_eq!(fs::read_to_string(&file_path).unwrap(), "local a = 1\n");
+        let mode = fs::metadata(&file_path).unwrap().permissions().mode() & 0o777;
+        assert_eq!(mode, 0o640);
+        fs::remove_dir_all(root).unwrap();
+    }
+
+    #[test]
+    fn test_write_file_atomically_failure_keeps_original() {
+        let root = make_temp_dir("luafmt-atomic-fail");
+        let missing_dir_file = root.join("missing").join("a.lua");
+
+        assert!(write_file_atomically(&missing_dir_file, b"x").is_err());
+        assert!(!missing_dir_file.exists());
+        fs::remove_dir_all(root).unwrap();
     }
 
     #[test]
